@@ -156,6 +156,40 @@ func decode(c *mon.Ctx, e *ref.EBP) {
 	if !bytes.Equal(in, snap) {
 		c.Fail("decode:input-modified", "decoding or re-encoding modified the input bytes", wit{mon.Hex(snap), shape(e), ""})
 	}
+	// a flavour-specific setter on the decoded object is reflected by the next encoding
+	{
+		y, _ := ebp.ReadEncoderBoundaryPoint(append([]byte{}, snap...))
+		e2 := *e
+		changed := ""
+		switch z := y.(type) {
+		case interface{ SetDiscontinuityFlag(bool) }:
+			if e.Flags&0x04 == 0 {
+				z.SetDiscontinuityFlag(true)
+				e2.Flags |= 0x04
+				changed = "SetDiscontinuityFlag(true)"
+			}
+		case interface {
+			SetConcealmentFlag(bool)
+			SetPartitionFlag(bool)
+		}:
+			if e.Flags&0x04 == 0 && len(snap)%2 == 0 {
+				z.SetConcealmentFlag(true)
+				e2.Flags |= 0x04
+				changed = "SetConcealmentFlag(true)"
+			} else if e.Flags&0x01 != 0 && e.Ext&0x80 == 0 {
+				z.SetPartitionFlag(true)
+				e2.Ext |= 0x80
+				e2.Partitions = 0
+				changed = "SetPartitionFlag(true)"
+			}
+		}
+		if changed != "" && y != nil && len(e2.Bytes()) <= 257 {
+			c.Count("decoded_then_flavour_setter")
+			if got, want := y.Data(), e2.Bytes(); !bytes.Equal(got, want) {
+				c.Fail("reencode:setter-after-decode-not-reflected", fmt.Sprintf("%s on a decoded EBP is not reflected by the next Data() (%s)", changed, shape(e)), wit{mon.Hex(snap), shape(e), "got " + mon.Hex(got) + " want " + mon.Hex(want)})
+			}
+		}
+	}
 	// bytes returned by Data() stay what they were when other EBPs (of either flavour) are encoded later
 	kept := append([]byte{}, out...)
 	o1 := ebp.CreateComcastEBP()
@@ -290,6 +324,7 @@ func run(c *mon.Ctx) {
 	c.Assume("EBP bodies go up to the 255 bytes the length byte can announce; the library's flag setters are set-only so built objects never clear a flag; EBPSuccessReadTime (wall clock) is ignored")
 	per := c.N(12, 20000)
 	c.Exhaustive("all 256 flag bytes x both flavours", 512)
+	c.Floor("decoded_then_flavour_setter", 500)
 	c.Stream("by-flags", 512, func(i int, r *gen.Rand) {
 		cable, flags := i >= 256, byte(i)
 		for k := 0; k < per; k++ {
